@@ -188,6 +188,123 @@ proof {
 """),
     ])
 
+build_sig = Fn(F_MIN, 'Minimizer', 'build_transitions_to_partition_group', ret='r', props=P, attrs='#[verifier::loop_isolation(false)] #[verifier::allow_complex_invariants]',
+    spec="""
+requires
+    partition@.len() <= u32::MAX, exists|n: int| part_ok(pv(partition@), n) && forall|s: StateID, cc: CharClassID, t: StateID| #[trigger] tm_edge(transitions@, s, cc, t) ==> t.0 < n,
+ensures
+    // (cc, g) is listed iff the state can move under cc into group g
+    sigvec_ok(transitions@, pv(partition@), state_id, r.0@),
+""",
+    edits=TRACE + [
+        Ins('body_start', None, """
+broadcast use axiom_stateid_cmp, axiom_ccid_cmp;
+let ghost tm = transitions@;
+let ghost p = pv(partition@);
+let ghost n = choose|n: int| part_ok(p, n) && forall|s: StateID, cc: CharClassID, t: StateID| #[trigger] tm_edge(tm, s, cc, t) ==> t.0 < n;
+"""),
+        Ins('after', 'if let Some(transitions_of_state) = transitions.get(&state_id) {', """
+let ghost tos = transitions_of_state@;
+proof { assert(tm.contains_key(state_id) && tm[state_id] == *transitions_of_state); }
+"""),
+        ForLoop('for transition in transitions_of_state {', it='__it1', via='%s.iter()', label='build_sig.classes',
+                pre='let ghost rem = __it1.remaining(); proof { assert(btree_rem_ok(tos, rem)); }', body_pre="""
+proof {
+    if __it1.remaining().len() == 0 {
+        assert forall|cc: CharClassID, g: StateGroupID| #[trigger] transitions_to_partition_groups.0@.contains((cc, g)) <==> (g.0 < p.len() && sig_tm(tm, p, state_id, cc, g.0 as int)) by {
+            lemma_sig_upto_all(tm, p, state_id, rem, cc, g.0 as int);
+        }
+    }
+    assert(true);
+}
+""", spec="""
+invariant
+    __it1.obeys_prophetic_iter_laws(), __it1.decrease() is Some,
+    tos == transitions_of_state@, btree_rem_ok(tos, rem),
+    __it1.remaining().len() <= rem.len(),
+    forall|q: int| 0 <= q < __it1.remaining().len() ==> #[trigger] __it1.remaining()[q] == rem[rem.len() - __it1.remaining().len() + q],
+    forall|i: int| 0 <= i < transitions_to_partition_groups.0@.len() ==> (#[trigger] transitions_to_partition_groups.0@[i]).1.0 < p.len(),
+    forall|cc: CharClassID, g: StateGroupID| #[trigger] transitions_to_partition_groups.0@.contains((cc, g))
+        <==> (g.0 < p.len() && sig_upto(rem, p, rem.len() - __it1.remaining().len(), cc, g.0 as int)),
+ensures __it1.remaining().len() == 0, sigvec_ok(tm, p, state_id, transitions_to_partition_groups.0@),
+decreases __it1.decrease()->0
+"""),
+        Ins('after', 'for transition in transitions_of_state {', """
+let ghost i0 = rem.len() - __it1.remaining().len() - 1;
+let ghost out_in = transitions_to_partition_groups.0@;
+proof { assert(transition == rem[i0]); assert(tos.contains_key(*transition.0) && tos[*transition.0] == *transition.1); }
+let ghost tv = transition.1@;
+"""),
+        ForLoop('for target_state in transition.1.iter() {', it='__it2', into_iter=False, label='build_sig.targets', spec="""
+invariant
+    __it2.obeys_prophetic_iter_laws(), __it2.decrease() is Some,
+    __it2.remaining().len() <= tv.len(), tv == transition.1@, transition == rem[i0], 0 <= i0 < rem.len(),
+    forall|q: int| 0 <= q < __it2.remaining().len() ==> *#[trigger] __it2.remaining()[q] == tv[tv.len() - __it2.remaining().len() + q],
+    forall|i: int| 0 <= i < transitions_to_partition_groups.0@.len() ==> (#[trigger] transitions_to_partition_groups.0@[i]).1.0 < p.len(),
+    forall|cc: CharClassID, g: StateGroupID| #[trigger] transitions_to_partition_groups.0@.contains((cc, g))
+        <==> (out_in.contains((cc, g)) || (cc == *rem[i0].0 && g.0 < p.len() && tgt_upto(tv, p, tv.len() - __it2.remaining().len(), g.0 as int))),
+ensures __it2.remaining().len() == 0,
+decreases __it2.decrease()->0
+"""),
+        Ins('after', 'for target_state in transition.1.iter() {', """
+let ghost k0 = tv.len() - __it2.remaining().len() - 1;
+let ghost out_mid = transitions_to_partition_groups.0@;
+proof {
+    assert(*target_state == tv[k0]);
+    assert(tv.contains(tv[k0]));
+    assert(tm_edge(tm, state_id, *rem[i0].0, *target_state));
+    assert(target_state.0 < n);
+    assert(has_grp(p, target_state.0 as int));
+}
+"""),
+        Ins('after_stmt', 'let partition_group = $_;', """
+proof {
+    let gi = choose|gi: int| #[trigger] in_grp(p, gi, target_state.0 as int);
+    assert(partition@[gi]@.contains(*target_state));
+    assert(in_grp(p, partition_group.0 as int, target_state.0 as int));
+}
+"""),
+        Ins('block_end', 'for target_state in transition.1.iter() {', """
+proof {
+    let e = (*rem[i0].0, partition_group);
+    assert(transitions_to_partition_groups.0@ == out_mid.push(e));
+    assert forall|cc: CharClassID, g: StateGroupID| #[trigger] transitions_to_partition_groups.0@.contains((cc, g))
+        <==> (out_in.contains((cc, g)) || (cc == *rem[i0].0 && g.0 < p.len() && tgt_upto(tv, p, k0 + 1, g.0 as int))) by {
+        lemma_push_contains_pair(out_mid, e, (cc, g));
+        assert(out_mid.contains((cc, g)) <==> (out_in.contains((cc, g)) || (cc == *rem[i0].0 && g.0 < p.len() && tgt_upto(tv, p, k0, g.0 as int))));
+        if tgt_upto(tv, p, k0 + 1, g.0 as int) {
+            let k = choose|k: int| 0 <= k < k0 + 1 && #[trigger] in_grp(p, g.0 as int, tv[k].0 as int);
+            if k == k0 { lemma_grp_unique(p, n, g.0 as int, partition_group.0 as int, tv[k0].0 as int); assert(g == partition_group); } else { assert(tgt_upto(tv, p, k0, g.0 as int)); }
+        }
+        if tgt_upto(tv, p, k0, g.0 as int) { let k = choose|k: int| 0 <= k < k0 && #[trigger] in_grp(p, g.0 as int, tv[k].0 as int); assert(0 <= k < k0 + 1); }
+        if (cc, g) == e { assert(in_grp(p, g.0 as int, tv[k0].0 as int)); assert(tgt_upto(tv, p, k0 + 1, g.0 as int)); }
+    }
+}
+"""),
+        Ins('block_end', 'for transition in transitions_of_state {', """
+proof {
+    assert forall|cc: CharClassID, g: StateGroupID| #[trigger] transitions_to_partition_groups.0@.contains((cc, g))
+        <==> (g.0 < p.len() && sig_upto(rem, p, i0 + 1, cc, g.0 as int)) by {
+        assert(out_in.contains((cc, g)) <==> (g.0 < p.len() && sig_upto(rem, p, i0, cc, g.0 as int)));
+        if sig_upto(rem, p, i0 + 1, cc, g.0 as int) {
+            let i = choose|i: int| 0 <= i < i0 + 1 && #[trigger] sig_at(rem, p, i, cc, g.0 as int);
+            if i < i0 { assert(sig_upto(rem, p, i0, cc, g.0 as int)); }
+        }
+        if sig_upto(rem, p, i0, cc, g.0 as int) { let i = choose|i: int| 0 <= i < i0 && #[trigger] sig_at(rem, p, i, cc, g.0 as int); assert(0 <= i < i0 + 1); }
+        if cc == *rem[i0].0 && tgt_upto(tv, p, tv.len() as int, g.0 as int) { assert(sig_at(rem, p, i0, cc, g.0 as int)); }
+    }
+}
+"""),
+        Tail("""
+proof {
+    if !tm.contains_key(state_id) {
+        assert(__res.0@.len() == 0);
+        assert forall|cc: CharClassID, g: StateGroupID| #[trigger] __res.0@.contains((cc, g)) <==> (g.0 < p.len() && sig_tm(tm, p, state_id, cc, g.0 as int)) by { }
+    }
+}
+"""),
+    ])
+
 FUNCS = [
     Raw(umin.UNIT['items'][0].text.replace('pub type StateGroup = BTreeSet<StateID>;\n', '').replace('pub struct Minimizer;\n', ''), label='trusted std contract: Iterator::position; derived Ord of StateID'),
     Fn(F_MIN, 'TransitionsToPartitionGroups', 'new', ret='r', props=P, spec='ensures r.0@.len() == 0', external_body=True, trusted_reason='Self::default() of the derived Default: an empty vector (rule E4)'),
@@ -195,6 +312,7 @@ FUNCS = [
     Fn(F_MIN, 'TransitionsToPartitionGroups', 'insert', props=P, spec='ensures final(self).0@ == old(self).0@.push((char_class, partition_group))'),
     umin.find_group,
     initial_partition,
+    build_sig,
 ]
 
 UNIT = dict(
